@@ -12,7 +12,8 @@ from ..interp import Obj, Sym, Term, View, Cell, Arr, Lin, NoReturn, Infeasible,
 from ..build import AnalysisBroken
 from ..lib_c10 import (PPInterp, Toks, register_nested_enums, explore_directive, outcome, calls, is_resync,
                        idx_of, truth_in, settle, m_equal, m_strndup, hook, cut_tok, resync, set_out,
-                       string_lits_compared, RESUME, directive_scenario, pp2_config, spelled_from)
+                       string_lits_compared, RESUME, directive_scenario, pp2_config, spelled_from, TABLE_LOOKUPS, h_find_macro,
+                       h_table_lookup)
 
 U = 'preprocess.c'
 OPENERS = ('if', 'ifdef', 'ifndef')
@@ -25,7 +26,7 @@ LINE_PASSERS = ('skip_cond_incl', 'include_file')
 
 
 # minimum number of distinct obligations per rule, confirmed by hand on the pinned tree (below: exit 2)
-FLOORS = {'R10.1': 15, 'R10.2': 90, 'R10.3': 14, 'R10.4': 40, 'R10.5': 10, 'R10.6': 47, 'R10.7': 3, 'R10.8': 15}
+FLOORS = {'R10.1': 15, 'R10.2': 90, 'R10.3': 14, 'R10.4': 40, 'R10.5': 10, 'R10.6': 47, 'R10.7': 3, 'R10.8': 15, 'R10.10': 12, 'R10.11': 12}
 
 
 def _declare_rules(rep):
@@ -83,7 +84,9 @@ def run(P, rep, tier):
     guarded('R10.5', r105, P, u, T, rep)
     r105_width(P, u, rep)
     guarded('R10.7', r107, P, u, rep)
-    guarded('R10.8', r108, P, u, T, rep, dres)
+    null_first = guarded('R10.8', r108, P, u, T, rep, dres)
+    guarded('R10.10', r1010_joiners, P, rep, bool(null_first))
+    guarded('R10.11', r1011_define_option, P, rep)
     guarded('R10.6', r106, P, rep)
     guarded('R10.9', r109_macro_table_order, P, rep)
 
@@ -1304,8 +1307,12 @@ def r105(P, u, T, rep):
         v = Sym('value-of-expression', 'long')
         ctx.emit('call', 'const_expr', args, n.line, v, None)
         return v
+    # the macro table is unknown here: whether a name is (still) defined is a fact about the program text, not about this function.  A token that is
+    # an identifier after macro replacement may well name a macro (`#define X X`: the hide set stops the expansion; a function-like macro name
+    # without `(`), C11 6.10.1p4 makes no exception for it
+    lookups = ('find_macro',) + TABLE_LOOKUPS       # the latter are cut by PPInterp itself
     it = PPInterp(P, u, {'cut': {'read_const_expr': h_read, 'preprocess2': h_pp2, 'new_num_token': h_num, 'const_expr': h_const,
-                                 'convert_pp_tokens': None},
+                                 'convert_pp_tokens': None, 'find_macro': h_find_macro},
                          'lazy_field': hook, 'loop_limit': 4})
     want = ['read_const_expr', 'preprocess2', 'convert_pp_tokens', 'const_expr']
     nret = 0
@@ -1358,7 +1365,13 @@ def r105(P, u, T, rep):
                     seen_ident = True
                     ok = len(mine) == 1 and mine[0][2][0] == 0 and i_pp < cs.index(mine[0]) < i_cv and \
                         settle(it, e.fields.get('kind')) == E['TK_PP_NUM'] and settle(it, e.fields.get('next')) is ctx.ex[k + 1]
-                    if not ok:
+                    hits = [x for x in cs if x[1] in lookups and truth_in(it, ctx, x[4]) is True]
+                    if not ok and hits:
+                        fail('macro-names-become-0', 'an identifier that is left after macro expansion but names a macro (%s answers non-NULL: a self-referential macro such as '
+                             '`#define X X` whose re-expansion the hide set stops, or a function-like macro name not followed by `(`) is not replaced by the number 0: it reaches the '
+                             'expression parser as an identifier and the valid `#if X` is rejected instead of reading as `#if 0` (C11 6.10.1p4 replaces all remaining identifiers)'
+                             % hits[0][1], ctx)
+                    elif not ok:
                         fail('identifiers-become-0', 'an identifier that is left after macro expansion is not replaced in place by the number 0 (keeping its successor) '
                              'before the expression is parsed: `#if UNDEFINED_NAME` would not read as `#if 0`', ctx)
                 elif may_ident and not mine:
@@ -1375,7 +1388,7 @@ def r105(P, u, T, rep):
     if not seen_empty_err:
         fails.setdefault('rejects-empty-expression', ('an empty controlling expression is not diagnosed before it is parsed', None))
     keys = ['order/%s-before-%s' % (a, b) for a, b in zip(want, want[1:])] + ['expands-the-rewritten-line', 'evaluates-the-expanded-line',
-            'returns-the-value', 'identifiers-become-0', 'rejects-trailing-tokens', 'rejects-empty-expression']
+            'returns-the-value', 'identifiers-become-0', 'macro-names-become-0', 'rejects-trailing-tokens', 'rejects-empty-expression']
     for k in keys:
         f = fails.get(k)
         rep.ob('R10.5', '%s:%s:%s' % (U, fn, k), f is None, f[0] if f else '', where=where, facts={'path': f[1]} if f else None)
@@ -1407,7 +1420,6 @@ def _r105_defined(P, u, T, rep):
             r.fields['kind'] = E['TK_PP_NUM']
             ctx.emit('call', 'new_num_token', args, n.line, r, None)
             return r
-        from ..lib_c10 import h_find_macro
         it = PPInterp(P, u, {'models': {'equal': m_equal}, 'cut': {'copy_line': h_copy, 'new_num_token': h_num, 'find_macro': h_find_macro},
                              'lazy_field': hook, 'loop_limit': 8})
         bad = None
@@ -1696,7 +1708,7 @@ def r108(P, u, T, rep, dres):
             rep.ob('R10.8', '%s:preprocess2:include_next/continues-the-search' % U, f is None, f[0] if f else '', where='%s:%d' % (U, line), facts={'path': f[1]} if f else None)
     _r108_once(P, u, T, rep)
     _r108_filename(P, u, T, rep)
-    _r108_cc1(P, rep)
+    return _r108_cc1(P, rep)
 
 
 def _format_args(ctx, v):
@@ -2006,6 +2018,174 @@ def _r108_cc1(P, rep):
         rep.undecided('R10.8', 'main.c:cc1:include-option', 'no path of cc1 with a -include file could be followed')
         return
     rep.ob('R10.8', 'main.c:cc1:include-files-before-main-file', bad is None, bad or '', where=where)
+    # does the fold start from "no list yet" (NULL)?  Then the joiner must accept that as well
+    starts_null = any(isinstance(settle(it, e[2][0]), int) and settle(it, e[2][0]) == 0
+                      for ctx, out in res for e in calls(ctx, 'append_tokens')[:1] if e[2])
+    return starts_null
+
+
+# ------------------------------------------------------------------------------------------------ R10.11
+def r1011_define_option(P, rep):
+    """`-D name`, `-D name=body`, `-U name` select text exactly like `#define name 1`, `#define name body`, `#undef name` in front of the first line (gcc
+    manual; with `-D name=` the body is empty, as in `#define name`).  The path from the option word to the macro table has three links:
+    (1) the option loop hands the word to define()/undef_macro() -- R17.9 of C17 decides that on symbolic command lines -- (2) define() splits it at the
+    first `=` -- likewise -- (3) define_macro(name, body) installs an object-like macro under that name whose replacement list is the tokenised body text.
+    (1) and (2) are re-issued from C17 (they state which text -D selects, which is this property); (3) is decided here."""
+    rep.rule('R10.11', 'command-line macro options select the text their textual counterparts select: -Dname is `#define name 1`, -Dname=body is `#define name body` with '
+             'body the whole text after the first `=` (possibly empty), -Uname is `#undef name`; define_macro installs an object-like macro under the given name whose '
+             'replacement list is the tokenised body', floor=FLOORS['R10.11'])
+    from ..report import Report, reissue
+    from . import c17
+    sub = Report('C17')
+    try:
+        c17.r179(P, sub)
+    except (AnalysisBroken, Unsupported) as e:
+        rep.undecided('R10.11', 'R17.9/analysis', 'the -D/-U plumbing could not be followed: %s' % e)
+    else:
+        n = reissue(rep, 'R10.11', sub, 'the option then selects other text than the textual #define/#undef it stands for: ', keep=lambda o: o['key'].startswith('R17.9:'))
+        if n == 0:
+            rep.undecided('R10.11', 'R17.9/none', 'C17 issued no obligation about the -D/-U options')
+    # (3) define_macro
+    pu = P.unit(U)
+    fn = 'define_macro'
+    if fn not in pu.functions:
+        rep.undecided('R10.11', '%s:%s:vanished' % (U, fn), 'define_macro vanished')
+        return
+    where = '%s:%d' % (U, pu.fn(fn).line)
+
+    def rec(name, mkres):
+        def h(it, ctx, n, args):
+            r = mkres(ctx)
+            ctx.emit('call', name, args, n.line, r, None)
+            return r
+        return h
+    it = PPInterp(P, pu, {'cut': {'new_file': rec('new_file', lambda ctx: Obj('File', lazy=True, label='file')),
+                                  'tokenize': rec('tokenize', lambda ctx: Obj('Token', lazy=True, label='body-tokens')),
+                                  'add_macro': rec('add_macro', lambda ctx: Obj('Macro', lazy=True, label='macro')),
+                                  'hashmap_put': rec('hashmap_put', lambda ctx: None), 'hashmap_put2': rec('hashmap_put2', lambda ctx: None)},
+                          'lazy_field': hook, 'loop_limit': 2})
+    a_name, a_buf = Sym('name', 'char *'), Sym('buf', 'char *')
+    try:
+        res = it.explore(fn, lambda ctx: [a_name, a_buf], max_paths=100)
+    except Unsupported as e:
+        rep.undecided('R10.11', '%s:%s:installs' % (U, fn), 'cannot interpret define_macro: %s' % e, where=where)
+        return
+    fails = {}
+    nret = 0
+    for ctx, out in res:
+        if out[0] != 'ret':
+            fails.setdefault('accepts-every-body', 'define_macro can end in %s() without defining the macro' % out[1])
+            continue
+        nret += 1
+        nf, tk, am = calls(ctx, 'new_file'), calls(ctx, 'tokenize'), calls(ctx, 'add_macro')
+        if len(am) != 1 or len(am[0][2]) < 3:
+            fails.setdefault('one-macro', 'define_macro does not install exactly one macro with add_macro (%d calls)' % len(am))
+            continue
+        nm, objlike, body = am[0][2][0], settle(it, am[0][2][1]), settle(it, am[0][2][2])
+        if nm is not a_name:
+            fails.setdefault('under-the-given-name', 'the macro is installed under another name than the one given (%r)' % (nm,))
+        if not (isinstance(objlike, int) and objlike == 1):
+            fails.setdefault('object-like', 'the macro is not installed as an object-like macro (%r): `-DX=...` then needs an argument list to be replaced' % (objlike,))
+        src = [e for e in tk if e[4] is body]
+        if len(tk) != 1 or not src:
+            fails.setdefault('body-is-the-tokenised-text', 'the replacement list handed to add_macro (%r) is not the result of tokenising the body text (once): -Dname=body then '
+                             'expands to other tokens than `#define name body`' % (body,))
+        else:
+            f = settle(it, src[0][2][0]) if src[0][2] else None
+            mk = [e for e in nf if e[4] is f]
+            if not mk or len(mk[0][2]) < 3 or mk[0][2][2] is not a_buf:
+                fails.setdefault('body-is-the-tokenised-text', 'the text that is tokenised for the replacement list is not the body text given to define_macro')
+    if nret == 0 and not fails:
+        rep.undecided('R10.11', '%s:%s:installs' % (U, fn), 'define_macro has no returning path', where=where)
+        return
+    for k in ('accepts-every-body', 'one-macro', 'under-the-given-name', 'object-like', 'body-is-the-tokenised-text'):
+        rep.ob('R10.11', '%s:%s:%s' % (U, fn, k), k not in fails, fails.get(k, ''), where=where)
+
+
+# ------------------------------------------------------------------------------------------------ R10.10
+def _joiner_scenarios(null_first):
+    sc = [('empty-first-list', 0, 1), ('first-list-of-1-token', 1, 1), ('first-list-of-2-tokens', 2, 1), ('first-list-of-3-tokens', 3, 1),
+          ('empty-second-list', 1, 0), ('both-lists-empty', 0, 0)]
+    if null_first:
+        sc.insert(0, ('no-first-list-yet', None, 1))
+    return sc
+
+
+def r1010_joiners(P, rep, null_first):
+    """`-include f` and `#include "f"` put the tokens of f in front of what follows (C11 6.10.2p3: the directive is replaced by the entire contents of
+    the file).  The two functions that do it -- append_tokens (main.c, -include files and the main file) and append (preprocess.c, #include and macro
+    bodies) -- are run on concrete token lists `t1 .. tn EOF` + `u1 .. um EOF` for n = 0..3, m = 0..1 (and, for the fold of cc1 that starts
+    from NULL, no first list at all); the successor of a list's TK_EOF token is NULL, as the tokenizer leaves it.  The answer must be the list
+    t1 .. tn u1 .. um EOF (the tokens themselves or copy_token copies of them), whatever n is: a file that tokenises to nothing (empty, or comments only)
+    is a valid -include / #include."""
+    rep.rule('R10.10', 'joining token lists is textual concatenation: append_tokens (used for -include files in front of the main file) and append (used for #include) '
+             'hand back the tokens of the first list, in order, without its end marker, followed by the second list -- for every length of the first list including 0 '
+             '(a file of comments only) and for the initial NULL of the fold in cc1', floor=FLOORS['R10.10'])
+    for un, fn in (('main.c', 'append_tokens'), ('preprocess.c', 'append')):
+        uu = P.unit(un)
+        if fn not in uu.functions:
+            rep.undecided('R10.10', '%s:%s:vanished' % (un, fn), 'the token list joiner %s vanished from %s' % (fn, un))
+            continue
+        register_nested_enums(uu)
+        T = Toks(uu)
+        E = uu.enums
+        where = '%s:%d' % (un, uu.fn(fn).line)
+        for tag, n, m in _joiner_scenarios(null_first and un == 'main.c'):
+            crash = []
+
+            def h_copy(it, ctx, nd, args):
+                src = settle(it, args[0]) if args else None
+                if not isinstance(src, Obj):
+                    raise Unsupported('copy_token of %r' % (src,))
+                o = Obj('Token', lazy=False, label='copy(%s)' % src.label)
+                o.fields.update(src.fields)
+                o.fields['next'] = 0
+                o.meta['copy_of'] = src.meta.get('copy_of', src)
+                return o
+            it = PPInterp(P, uu, {'cut': {'copy_token': h_copy}, 'on_null_deref': lambda it_, nd: crash.append((nd.src(), nd.line)), 'loop_limit': 1})
+
+            def mk(ctx, n=n, m=m):
+                def lst(prefix, k):
+                    ts = T.chain([('%s%d' % (prefix, i + 1), '%s%d' % (prefix, i + 1), 'TK_IDENT', i == 0) for i in range(k)] + [(prefix + '-eof', '', 'TK_EOF', True)])
+                    ts[-1].fields['next'] = 0
+                    return ts
+                ctx.l1 = lst('t', n) if n is not None else None
+                ctx.l2 = lst('u', m)
+                return [ctx.l1[0] if ctx.l1 else 0, ctx.l2[0]]
+            key = '%s:%s:' % (un, fn)
+            try:
+                res = it.explore(fn, mk, max_paths=50)
+            except Unsupported as e:
+                rep.undecided('R10.10', key + tag, 'cannot interpret %s: %s' % (fn, e), where=where)
+                continue
+            rets = [(c, o) for c, o in res if o[0] == 'ret']
+            said = {'no-first-list-yet': 'nothing (NULL: no -include file so far)', 'empty-first-list': 'a file that tokenises to nothing (only its end marker)',
+                    'empty-second-list': 'one token, followed by an empty second list', 'both-lists-empty': 'two empty lists'}.get(tag, '%s token(s)' % n)
+            if not rets:
+                if crash:
+                    rep.ob('R10.10', key + tag + '/crashes', False,
+                           '%s given %s as its first list evaluates `%s` through a NULL pointer (the successor of the TK_EOF token that ends a list is NULL): the compiler '
+                           'crashes where textual inclusion of the same file yields its (possibly empty) text' % (fn, said, crash[0][0]), where='%s:%d' % (un, crash[0][1]))
+                elif res:
+                    rep.ob('R10.10', key + tag + '/rejected', False, '%s given %s as its first list ends in %s instead of handing back the joined list' % (fn, said, res[0][1][1]), where=where)
+                else:
+                    rep.undecided('R10.10', key + tag, '%s has no path the analysis can follow on this input' % fn, where=where)
+                continue
+            bad = None
+            for ctx, out in rets:
+                want = (ctx.l1[:-1] if ctx.l1 else []) + ctx.l2
+                got = []
+                t = settle(it, out[1])
+                while isinstance(t, Obj) and len(got) < len(want) + 3:
+                    got.append(t)
+                    t = settle(it, t.fields.get('next', 0))
+                orig = [g.meta.get('copy_of', g) for g in got]
+                if len(orig) != len(want) or any(a is not b for a, b in zip(orig, want)):
+                    bad = bad or ('%s given %s as its first list hands back [%s] instead of [%s]: the token stream differs from textual inclusion' % (
+                        fn, said, ' '.join(g.label or '?' for g in got) or 'nothing', ' '.join(w.label for w in want)))
+                elif any(g is not w for g, w in zip(got[len(want) - len(ctx.l2):], ctx.l2)):
+                    bad = bad or '%s does not hand back the second list itself as the tail of the result' % fn
+            rep.ob('R10.10', key + tag + ('' if bad is None else '/wrong-list'), bad is None, bad or '', where=where)
 
 
 # ------------------------------------------------------------------------------------------------ R10.6
